@@ -264,6 +264,14 @@ func (w *lifeWorld) Do(st Step) string {
 			churn()
 		case "Mistake":
 			w.mistake(b, t, st.Str("kind"))
+		case "WhenBad":
+			// When(a) is fine (and installs the mock on a fresh handle); the Return of a value of another size is rejected
+			var a interface{} = st.Int("a")
+			if w.kind == "uemethod" {
+				w.handle(b, t).When(anyExpr(), a).Return(int8(1))
+			} else {
+				w.handle(b, t).When(a).Return(int8(1))
+			}
 		case "OpenDebug":
 			mocker.OpenDebug()
 		case "CloseDebug":
